@@ -78,8 +78,11 @@ func (r *Report) finish(evdir string, writeEvidence bool) int {
 	isKnown := func(name string) *KnownFinding {
 		for i := range known.Findings {
 			k := &known.Findings[i]
-			// "any": the obligation belongs to a unit that several properties' checks contain
-			if k.Obligation == name && (k.Property == r.Prop || r.Prop == "all" || k.Property == "any") {
+			// A finding is identified by its obligation. The property recorded with
+			// it names the check(s) it was found under; a check that verifies the
+			// same unit as a dependency of its own units (see cmdCheck) meets the
+			// same obligation and reports it as the same known finding.
+			if k.Obligation == name {
 				return k
 			}
 		}
@@ -197,6 +200,9 @@ func (r *Report) finish(evdir string, writeEvidence bool) int {
 	for _, u := range r.Results {
 		tot, dis, triv, _ := summarize(u.Obligations)
 		fe := map[string]any{"func": u.Func, "file": u.File, "obligations": tot, "discharged": dis, "trivial": triv}
+		if u.Dependency {
+			fe["role"] = "dependency (its contract is relied upon by a unit of this property; listed under " + strings.Join(u.Serves, ",") + ")"
+		}
 		if u.Unsupported != "" {
 			fe["unsupported"] = u.Unsupported
 			emitViolation(u.Func+"#unit", "unit-not-verifiable: "+u.Unsupported, nil)
@@ -411,13 +417,19 @@ type ReplayResult struct {
 	Output    string `json:"output,omitempty"`
 }
 
-// trustedContracts lists the contracts that are used at call sites but whose
-// bodies are not verified (flag trusted).
+// trustedContracts: the contracts flagged `trusted` (assumed, never verified)
+// that the units of this check rely on at their call sites.
 func (r *Report) trustedContracts() []string {
+	used := map[string]bool{}
+	for _, u := range r.Results {
+		for n := range u.Used {
+			used[n] = true
+		}
+	}
 	var out []string
 	for _, name := range sortedKeys(r.p.ByName) {
 		fi := r.p.ByName[name]
-		if fi.Flag("trusted") {
+		if fi.Flag("trusted") && (used[name] || r.Prop == "all") {
 			out = append(out, name)
 		}
 	}
